@@ -6,9 +6,16 @@
    Decided per run on the real engine: every scenario search is repeated in a fresh process and must print the same lines;
    scripted UCI sessions `H; ucinewgame; position P; go depth d` are compared with a fresh process running `position P; go depth d`. *)
 From Coq Require Import NArith ZArith List Bool.
-From JV Require Import Gen.Consts Model.Chess Model.Eval Model.TT Model.Search Model.SearchChess Proofs.TTProofs Proofs.SearchFrame.
+From JV Require Import Gen.Consts Model.Chess Model.Eval Model.TT Model.Search Model.SearchChess Proofs.TTProofs Proofs.SearchFrame Proofs.SearchBalance.
 
 Theorem C18_clear : forall ops h d a b q, probe (table (Clr :: ops)) h d a b q = None.
 Proof. exact clear_nothing. Qed.
 
+(* a depth-limited search with no input pending and no deadline (no poll ever reports a stop) is never stopped, whatever the polling
+   cadence: its outputs are then a function of (position, history prefix, TT) alone *)
+Theorem C18_never_stopped_without_input : forall pollp bypass g depth t rt ri,
+  match chess_search pollp (fun _ => false) bypass g depth t rt ri with SDone _ e _ => stopping e = false | SFuel => False end.
+Proof. intros. apply search_never_stopped. reflexivity. Qed.
+
 Print Assumptions C18_clear.
+Print Assumptions C18_never_stopped_without_input.
